@@ -1,4 +1,188 @@
-(* Basic facts about the type-follower model (Model/TypeFollow.v) shared by the C07-C10 proofs. *)
-From FA.Base Require Import PyAst Value Induct.
+(* Basic facts about the type-follower model (Model/TypeFollow.v) shared by the C07-C10 proofs:
+   inversion of [bind], one unfolding equation of [follow_x] per node class (so that proofs never
+   [simpl] the whole transformer), list lemmas. *)
+From FA.Base Require Import PyAst Value Induct Traverse.
 From FA.Gen Require Import TablesUtil TablesTypes.
 From FA.Model Require Import TypeDefs TypeFollow.
+
+Lemma bind_ok {A B} (x : tres A) (f : A -> tres B) b :
+  bind x f = Ok b -> exists a, x = Ok a /\ f a = Ok b.
+Proof. destruct x; cbn; intros H; try discriminate. eauto. Qed.
+
+Lemma bind_refuse {A B} (x : tres A) (f : A -> tres B) r :
+  bind x f = Refuse r -> x = Refuse r \/ exists a, x = Ok a /\ f a = Refuse r.
+Proof. destruct x; cbn; intros H; try discriminate; [right; eauto | left; congruence]. Qed.
+
+Lemma bind_crash {A B} (x : tres A) (f : A -> tres B) k :
+  bind x f = Crash k -> x = Crash k \/ exists a, x = Ok a /\ f a = Crash k.
+Proof. destruct x; cbn; intros H; try discriminate; [right; eauto | left; congruence]. Qed.
+
+(* the table flags the fixed algorithms rest on (regenerated from the source on every run) *)
+Lemma fill_increments_on : fill_increments = true. Proof. reflexivity. Qed.
+Lemma unary_uses_lookup_on : unary_uses_lookup = true. Proof. reflexivity. Qed.
+Lemma param_call_guarded_on : param_call_guarded = true. Proof. reflexivity. Qed.
+Lemma fill_skipped_params_are : fill_skipped_params = ["self"; "known_types"]. Proof. reflexivity. Qed.
+
+Section Equations.
+  Variable W : world.
+  Variable G : tenv.
+  Notation fx := (follow_x W G).
+  Notation fl := (follow_list_with (follow_x W G)).
+  Notation nl := (nested_args_with (follow_x W) G).
+
+  Lemma fx_Name x : fx (Name x) = Ok (Name x, name_type W G x, [], []). Proof. reflexivity. Qed.
+  Lemma fx_Const c : fx (Const c) = Ok (Const c, const_type c, [], []). Proof. reflexivity. Qed.
+  Lemma fx_Raw c : fx (Raw c) = Ok (Raw c, TAny, [], []). Proof. reflexivity. Qed.
+  Lemma fx_Lambda ps b : fx (Lambda ps b) = Ok (Lambda ps b, TCallable, [], []). Proof. reflexivity. Qed.
+  Lemma fx_Attr v a :
+    fx (Attr v a) = bind (fx v) (fun '(v', tv, aux, ev) =>
+                    bind (attr_type W a v' tv aux) (fun t => Ok (Attr v' a, t, [], ev))).
+  Proof. reflexivity. Qed.
+  Lemma fx_Subscript v s :
+    fx (Subscript v s) =
+      bind (fx v) (fun '(v', tv, aux, ev1) =>
+      bind (fx s) (fun '(s', _, _, ev2) =>
+      bind (subscript_type W v' tv aux s') (fun t => Ok (Subscript v' s', t, [], ev1 ++ ev2)))).
+  Proof. reflexivity. Qed.
+  Lemma fx_UnaryOp o x :
+    fx (UnaryOp o x) =
+      bind (fx x) (fun '(x', t, _, ev) =>
+        if unary_uses_lookup || negb (no_entry_shape x' t) then Ok (UnaryOp o x', t, [], ev) else Crash CkKey).
+  Proof. reflexivity. Qed.
+  Lemma fx_BinOp o l r :
+    fx (BinOp o l r) =
+      bind (fx l) (fun '(l', tl, _, ev1) =>
+      bind (fx r) (fun '(r', tr, _, ev2) => Ok (BinOp o l' r', binop_type o tl tr, [], ev1 ++ ev2))).
+  Proof. reflexivity. Qed.
+  Lemma fx_BoolOp o es :
+    fx (BoolOp o es) = bind (fl es) (fun '(es', _, ev) => Ok (BoolOp o es', TBool, [], ev)).
+  Proof. reflexivity. Qed.
+  Lemma fx_Compare l ops rs :
+    fx (Compare l ops rs) =
+      bind (fx l) (fun '(l', _, _, ev1) =>
+      bind (fl rs) (fun '(rs', _, ev2) => Ok (Compare l' ops rs', TBool, [], ev1 ++ ev2))).
+  Proof. reflexivity. Qed.
+  Lemma fx_IfExp c t f :
+    fx (IfExp c t f) =
+      bind (fx c) (fun '(c', _, _, ev1) =>
+      bind (fx t) (fun '(t', ty1, _, ev2) =>
+      bind (fx f) (fun '(f', ty2, _, ev3) =>
+      bind (ifexp_type ty1 ty2) (fun ty => Ok (IfExp c' t' f', ty, [], ev1 ++ ev2 ++ ev3))))).
+  Proof. reflexivity. Qed.
+  Lemma fx_Tuple es : fx (Tuple es) = bind (fl es) (fun '(es', ts, ev) => Ok (Tuple es', TAny, ts, ev)).
+  Proof. reflexivity. Qed.
+  Lemma fx_List es : fx (List es) = bind (fl es) (fun '(es', _, ev) => Ok (List es', TAny, [], ev)).
+  Proof. reflexivity. Qed.
+  Lemma fx_Dict ks vs :
+    fx (Dict ks vs) =
+      bind (fl ks) (fun '(ks', _, ev1) =>
+      bind (fl vs) (fun '(vs', tvs, ev2) =>
+      bind (dict_type ks' tvs) (fun t => Ok (Dict ks' vs', t, tvs, ev1 ++ ev2)))).
+  Proof. reflexivity. Qed.
+  Lemma fx_ListComp x gs :
+    fx (ListComp x gs) =
+      bind (fx x) (fun '(x', _, _, ev1) =>
+      bind (fl gs) (fun '(gs', _, ev2) => Ok (ListComp x' gs', TAny, [], ev1 ++ ev2))).
+  Proof. reflexivity. Qed.
+  Lemma fx_GenExp x gs :
+    fx (GenExp x gs) =
+      bind (fx x) (fun '(x', _, _, ev1) =>
+      bind (fl gs) (fun '(gs', _, ev2) => Ok (GenExp x' gs', TAny, [], ev1 ++ ev2))).
+  Proof. reflexivity. Qed.
+  Lemma fx_CompFor t i ifs a :
+    fx (CompFor t i ifs a) =
+      bind (fx t) (fun '(t', _, _, ev1) =>
+      bind (fx i) (fun '(i', _, _, ev2) =>
+      bind (fl ifs) (fun '(ifs', _, ev3) => Ok (CompFor t' i' ifs' a, TAny, [], ev1 ++ ev2 ++ ev3)))).
+  Proof. reflexivity. Qed.
+  Lemma fx_Other cls ats cs :
+    fx (Other cls ats cs) = bind (fl cs) (fun '(cs', _, ev) => Ok (Other cls ats cs', TAny, [], ev)).
+  Proof. reflexivity. Qed.
+
+  Lemma fx_Call_method v a args kwn kwv :
+    fx (Call (Attr v a) args kwn kwv) =
+      bind (fx v) (fun '(v', tv, aux, ev0) =>
+      bind (attr_type W a v' tv aux) (fun _ =>
+      bind (fl args) (fun '(args', _, ev1) =>
+      bind (fl kwv) (fun '(kwv', _, ev2) =>
+      bind (process_method_call W v' tv a (nl args args') kwn (nl kwv kwv')) (fun '(node, t, ev3) =>
+        Ok (node, t, [], ev0 ++ ev1 ++ ev2 ++ ev3)))))).
+  Proof. reflexivity. Qed.
+
+  Lemma fx_Call_param v a s args kwn kwv :
+    fx (Call (Subscript (Attr v a) s) args kwn kwv) =
+      bind (fx v) (fun '(v', tv, aux, ev0) =>
+      bind (attr_type W a v' tv aux) (fun ta =>
+      bind (fx s) (fun '(s', _, _, ev0') =>
+      bind (subscript_type W (Attr v' a) ta [] s') (fun _ =>
+      bind (fl args) (fun '(args', _, ev1) =>
+      bind (fl kwv) (fun '(kwv', _, ev2) =>
+        if is_any tv && param_call_guarded
+        then Ok (Call (Subscript (Attr v' a) s') args' kwn kwv', TAny, [], ev0 ++ ev0' ++ ev1 ++ ev2)
+        else bind (process_parameterized W v' tv a s' args' kwn kwv') (fun '(node, t, ev3) =>
+               Ok (node, t, [], ev0 ++ ev0' ++ ev1 ++ ev2 ++ ev3)))))))).
+  Proof. reflexivity. Qed.
+
+  (* callee that is neither an attribute nor a subscripted attribute *)
+  Definition plain_callee (f : expr) : Prop :=
+    match f with Attr _ _ => False | Subscript (Attr _ _) _ => False | _ => True end.
+
+  Lemma fx_Call_plain f args kwn kwv :
+    plain_callee f ->
+    fx (Call f args kwn kwv) =
+      bind (fx f) (fun '(f', _, _, ev0) =>
+      bind (fl args) (fun '(args', _, ev1) =>
+      bind (fl kwv) (fun '(kwv', _, ev2) =>
+        match f' with
+        | Name x =>
+            match find_func (w_ft W) x with
+            | Some fn =>
+                bind (process_function_call W fn args' kwn kwv') (fun '(node, t, ev3) =>
+                  Ok (node, t, [], ev0 ++ ev1 ++ ev2 ++ ev3))
+            | None => Ok (Call f' args' kwn kwv', TAny, [], ev0 ++ ev1 ++ ev2)
+            end
+        | _ => Ok (Call f' args' kwn kwv', TAny, [], ev0 ++ ev1 ++ ev2)
+        end))).
+  Proof.
+    intros H. destruct f; try reflexivity; try contradiction.
+    destruct f1; try reflexivity; contradiction.
+  Qed.
+
+  Lemma fl_nil : fl [] = Ok ([], [], []). Proof. reflexivity. Qed.
+  Lemma fl_cons x xs :
+    fl (x :: xs) = bind (fx x) (fun '(x', t, _, ev) =>
+                   bind (fl xs) (fun '(xs', ts, evs) => Ok (x' :: xs', t :: ts, ev ++ evs))).
+  Proof. reflexivity. Qed.
+End Equations.
+
+(* map aexpr over the annotated arguments gives back the visited arguments *)
+Lemma nested_args_exprs rec G l l' :
+  length l = length l' -> map aexpr (nested_args_with rec G l l') = l'.
+Proof.
+  revert l'. induction l as [|x xs IH]; intros [|x' xs'] H; cbn in *; try discriminate; try reflexivity.
+  f_equal. apply IH. congruence.
+Qed.
+
+Lemma assoc2_In {A} x ks (vs : list A) v : assoc2 x ks vs = Some v -> In v vs.
+Proof.
+  revert vs. induction ks as [|k ks IH]; intros [|v' vs] H; cbn in H; try discriminate.
+  destruct (String.eqb k x).
+  - inversion H; subst. left; reflexivity.
+  - right. eapply IH; eauto.
+Qed.
+
+Lemma find_func_name ft x fn : find_func ft x = Some fn -> f_name fn = x.
+Proof.
+  induction ft as [|f r IH]; cbn; intros H; try discriminate.
+  destruct (String.eqb (f_name f) x) eqn:E.
+  - inversion H; subst. apply String.eqb_eq; exact E.
+  - auto.
+Qed.
+
+Lemma find_func_In ft x fn : find_func ft x = Some fn -> In fn ft.
+Proof.
+  induction ft as [|f r IH]; cbn; intros H; try discriminate.
+  destruct (String.eqb (f_name f) x).
+  - inversion H; subst. left; reflexivity.
+  - right; auto.
+Qed.
